@@ -125,63 +125,78 @@ Proof.
 Qed.
 
 (* ---------------------------------------------------------------- characters and numerals *)
+Lemma code_N c : code c = Z.of_N (N_of_ascii c).
+Proof. destruct c as [[] [] [] [] [] [] [] []]; reflexivity. Qed.
 Lemma code_chr z : 0 <= z < 256 -> code (chr z) = z.
 Proof.
-  intros H. unfold code, chr. rewrite N_ascii_embedding; [apply Z2N.id; lia|].
+  intros H. rewrite code_N. unfold chr. rewrite N_ascii_embedding; [apply Z2N.id; lia|].
   apply N2Z.inj_lt. rewrite Z2N.id; lia.
 Qed.
 Lemma chr_code c : chr (code c) = c.
-Proof. unfold code, chr. rewrite N2Z.id. apply ascii_N_embedding. Qed.
+Proof. rewrite code_N. unfold chr. rewrite N2Z.id. apply ascii_N_embedding. Qed.
 Lemma code_range c : 0 <= code c < 256.
 Proof.
-  unfold code. split; [apply N2Z.is_nonneg|].
+  rewrite code_N. split; [apply N2Z.is_nonneg|].
   change 256 with (Z.of_N 256). apply N2Z.inj_lt. apply N_ascii_bounded.
 Qed.
+Lemma digit_cases d : 0 <= d <= 9 ->
+  d = 0 \/ d = 1 \/ d = 2 \/ d = 3 \/ d = 4 \/ d = 5 \/ d = 6 \/ d = 7 \/ d = 8 \/ d = 9.
+Proof. lia. Qed.
 Lemma dval_dchar d : 0 <= d <= 9 -> dval (dchar d) = d.
-Proof. intros H. unfold dval, dchar. rewrite code_chr; lia. Qed.
+Proof. intros H. apply digit_cases in H. repeat destruct H as [H|H]; subst; reflexivity. Qed.
 Lemma is_digit_dchar d : 0 <= d <= 9 -> is_digit (dchar d) = true.
-Proof.
-  intros H. unfold is_digit, dchar. rewrite code_chr by lia.
-  apply andb_true_iff; split; apply Z.leb_le; lia.
-Qed.
+Proof. intros H. apply digit_cases in H. repeat destruct H as [H|H]; subst; reflexivity. Qed.
 Lemma is_digit_inv c : is_digit c = true -> c = dchar (dval c) /\ 0 <= dval c <= 9.
 Proof.
-  unfold is_digit, dchar, dval. intros H. apply andb_true_iff in H as [H1 H2].
+  unfold is_digit, dval. intros H. apply andb_true_iff in H as [H1 H2].
   apply Z.leb_le in H1. apply Z.leb_le in H2.
-  split; [|lia]. replace (code c - 48 + 48) with (code c) by lia. symmetry. apply chr_code.
+  split; [|lia]. rewrite <- (chr_code c) at 1.
+  assert (K : 0 <= code c - 48 <= 9) by lia. apply digit_cases in K.
+  repeat destruct K as [K|K]; rewrite K; replace (code c) with (code c - 48 + 48) by lia; rewrite K; reflexivity.
 Qed.
 
 Lemma int_acc_app s : forall a t, int_acc a (s ++ t) = int_acc (int_acc a s) t.
 Proof. induction s; intros; cbn; auto. Qed.
 
-(* digs with enough fuel prepends a non-empty digit string whose value is n *)
+Lemma div_eucl_eq a b : Z.div_eucl a b = (a / b, a mod b).
+Proof. unfold Z.div, Z.modulo. destruct (Z.div_eucl a b). reflexivity. Qed.
+
+Lemma digs_S f n acc : digs (S f) n acc =
+  if n <? 10 then dchar n :: acc else let '(q, r) := Z.div_eucl n 10 in digs f q (dchar r :: acc).
+Proof. reflexivity. Qed.
+(* digs with enough fuel prepends a non-empty digit string without superfluous leading zero whose value is n *)
 Lemma digs_spec f : forall n acc, 0 <= n < 10 ^ Z.of_nat (S f) ->
   exists ds p, digs (S f) n acc = ds ++ acc /\ ds <> [] /\ forallb is_digit ds = true /\
-               forall a, int_acc a ds = a * p + n.
+               (forall a, int_acc a ds = a * p + n) /\ p = 10 ^ Z.of_nat (List.length ds) /\
+               (p <= 10 * n \/ List.length ds = 1%nat).
 Proof.
   induction f as [|f IH]; intros n acc H.
   - assert (n < 10) by (change (10 ^ Z.of_nat 1) with 10 in H; lia).
     cbn [digs]. destruct (Z.ltb_spec n 10); [|lia].
-    exists [dchar n], 10. repeat split; [discriminate| |].
+    exists [dchar n], 10. repeat split; [discriminate| | |right; reflexivity].
     + cbn [forallb]. rewrite is_digit_dchar by lia. reflexivity.
     + intros a. cbn [int_acc]. rewrite dval_dchar by lia. lia.
-  - cbn [digs]. destruct (Z.ltb_spec n 10).
-    + exists [dchar n], 10. repeat split; [discriminate| |].
+  - rewrite digs_S. destruct (Z.ltb_spec n 10).
+    + exists [dchar n], 10. repeat split; [discriminate| | |right; reflexivity].
       * cbn [forallb]. rewrite is_digit_dchar by lia. reflexivity.
       * intros a. cbn [int_acc]. rewrite dval_dchar by lia. lia.
-    + assert (Hq : 0 <= n / 10 < 10 ^ Z.of_nat (S f)).
+    + rewrite div_eucl_eq. cbv beta iota.
+      assert (Hq : 0 <= n / 10 < 10 ^ Z.of_nat (S f)).
       { split; [apply Z.div_pos; lia|]. apply Z.div_lt_upper_bound; [lia|].
         replace (Z.of_nat (S (S f))) with (Z.succ (Z.of_nat (S f))) in H by lia.
         rewrite Z.pow_succ_r in H by lia. lia. }
-      destruct (IH (n / 10) (dchar (n mod 10) :: acc) Hq) as (ds & p & E & Hne & Hd & Hv).
+      destruct (IH (n / 10) (dchar (n mod 10) :: acc) Hq) as (ds & p & E & Hne & Hd & Hv & Hp & Hlow).
       assert (Hm : 0 <= n mod 10 <= 9) by (pose proof (Z.mod_pos_bound n 10); lia).
+      pose proof (Z.div_mod n 10 ltac:(lia)) as DM.
       exists (ds ++ [dchar (n mod 10)]), (10 * p). repeat split.
-      * change (digs (S f) (n / 10) (dchar (n mod 10) :: acc) = (ds ++ [dchar (n mod 10)]) ++ acc).
-        rewrite E, <- app_assoc. reflexivity.
+      * rewrite E, <- app_assoc. reflexivity.
       * destruct ds; discriminate.
       * rewrite forallb_app, Hd. cbn [forallb]. rewrite is_digit_dchar by lia. reflexivity.
-      * intros a. rewrite int_acc_app, Hv. cbn [int_acc]. rewrite dval_dchar by lia.
-        pose proof (Z.div_mod n 10). lia.
+      * intros a. rewrite int_acc_app, Hv. cbn [int_acc]. rewrite dval_dchar by lia. lia.
+      * rewrite app_length. cbn [List.length]. rewrite Nat2Z.inj_add. change (Z.of_nat 1) with 1.
+        rewrite Z.pow_add_r by lia. rewrite <- Hp. lia.
+      * left. destruct Hlow as [Hlow|Hlow]; [lia|].
+        rewrite Hlow in Hp. change (10 ^ Z.of_nat 1) with 10 in Hp. lia.
 Qed.
 
 Lemma str_nat_fuel n : 0 <= n -> n < 10 ^ Z.of_nat (S (Z.to_nat (Z.log2 n))).
@@ -192,12 +207,37 @@ Proof.
   eapply Z.lt_le_trans; [exact Hl|].
   apply Z.pow_le_mono_l. pose proof (Z.log2_nonneg n). lia.
 Qed.
-Lemma str_nat_spec n : 0 <= n ->
-  str_nat n <> [] /\ forallb is_digit (str_nat n) = true /\ int_dec (str_nat n) = n.
+Lemma str_nat_spec' n : 0 <= n ->
+  str_nat n <> [] /\ forallb is_digit (str_nat n) = true /\ int_dec (str_nat n) = n /\
+  (10 ^ Z.of_nat (List.length (str_nat n)) <= 10 * n \/ List.length (str_nat n) = 1%nat).
 Proof.
   intros H. unfold str_nat.
-  destruct (digs_spec (Z.to_nat (Z.log2 n)) n [] (conj H (str_nat_fuel n H))) as (ds & p & E & Hne & Hd & Hv).
-  rewrite E, app_nil_r. repeat split; auto. unfold int_dec. rewrite Hv. lia.
+  destruct (digs_spec (Z.to_nat (Z.log2 n)) n [] (conj H (str_nat_fuel n H))) as (ds & p & E & Hne & Hd & Hv & Hp & Hl).
+  rewrite E, app_nil_r. repeat split; auto; [unfold int_dec; rewrite Hv; lia|]. rewrite <- Hp. exact Hl.
+Qed.
+Lemma str_nat_spec n : 0 <= n ->
+  str_nat n <> [] /\ forallb is_digit (str_nat n) = true /\ int_dec (str_nat n) = n.
+Proof. intros H. destruct (str_nat_spec' n H) as (A & B & C & _). auto. Qed.
+Lemma str_nat_length n w : 0 <= n < 10 ^ Z.of_nat w -> (0 < w)%nat -> (List.length (str_nat n) <= w)%nat.
+Proof.
+  intros [H0 H] Hw. destruct (str_nat_spec' n H0) as (_ & _ & _ & [K|K]); [|lia].
+  set (l := List.length (str_nat n)) in *.
+  destruct (Nat.le_gt_cases l w) as [|G]; [assumption|exfalso].
+  assert (10 ^ Z.of_nat (S w) <= 10 ^ Z.of_nat l) by (apply Z.pow_le_mono_r; lia).
+  rewrite Nat2Z.inj_succ, Z.pow_succ_r in H1 by lia. lia.
+Qed.
+Lemma int_acc_zeros k : forall s, int_acc 0 (repeat "0"%char k ++ s) = int_acc 0 s.
+Proof. induction k; intros s; cbn; auto. Qed.
+(* '{:0<w>d}'.format(n) for 0 <= n < 10^w: exactly w digits denoting n *)
+Lemma fmt_0d_spec w n : 0 <= n < 10 ^ Z.of_nat w -> (0 < w)%nat ->
+  List.length (fmt_0d w n) = w /\ forallb is_digit (fmt_0d w n) = true /\ int_dec (fmt_0d w n) = n.
+Proof.
+  intros H Hw. unfold fmt_0d. destruct (Z.ltb_spec n 0); [lia|].
+  pose proof (str_nat_length n w H Hw) as Hl. destruct (str_nat_spec n ltac:(lia)) as (_ & Hd & Hv).
+  unfold zfill. repeat split.
+  - rewrite app_length, repeat_length. lia.
+  - rewrite forallb_app, Hd, andb_true_r. clear. induction (w - List.length (str_nat n))%nat; cbn; auto.
+  - unfold int_dec. rewrite int_acc_zeros. exact Hv.
 Qed.
 Lemma str_nat_head_digit n : 0 <= n -> exists c r, str_nat n = c :: r /\ is_digit c = true.
 Proof.
